@@ -168,6 +168,15 @@ func (s *ccSigner) lambda(c *hx.Ctx, seen *[]byte) cert.SignerLambda {
 	}
 }
 
+// ccFakeSigner is a real CA certificate whose Fingerprint() is overridden: SignWith copies that string into the issuer
+// field, so issuers of any length reach the encoders through the unmodified SignWith.
+type ccFakeSigner struct {
+	cert.Certificate
+	fp string
+}
+
+func (f ccFakeSigner) Fingerprint() (string, error) { return f.fp, nil }
+
 type ccCA struct {
 	signer *ccSigner
 	crt    cert.Certificate
@@ -511,20 +520,31 @@ func (x *ccCtx) signCase(oversize bool, sizeDelta int) {
 			t.PublicKey = c.RandBytes(32)
 		}
 	}
-	// how it is signed: 0 = SignWith self-signed, 1 = SignWith by a CA, 2 = tail of SignWith with a free issuer
+	// how it is signed: 0 = SignWith self-signed, 1 = SignWith by a CA, 2 = SignWith by a CA whose Fingerprint()
+	// returns a string of the harness' choosing (issuer lengths other than 32 bytes)
 	how := 0
 	if !isCA {
 		how = 1
-	}
-	if c.Chance(0.25) {
-		how = 2
+		if c.Chance(0.3) {
+			how = 2
+		}
 	}
 	if c.Chance(0.03) {
 		how = c.Intn(2) // may contradict the CA flag: SignWith refuses
 	}
-	wide := how != 1
+	if oversize {
+		how, curve = 1, cert.Curve_CURVE25519 // 64-byte signatures: the encoded length does not depend on the signature
+		t.Curve = curve
+		isCA = false
+		t.IsCA = false
+		t.PublicKey = c.RandBytes(32)
+	}
+	wide := how == 0
 	nb, na := ccSeconds(c, wide), ccSeconds(c, wide)
-	if how == 1 {
+	if oversize {
+		nb, na = 1700000000, 1800000000
+	}
+	if how != 0 {
 		if nb < ccCAFrom {
 			nb = ccCAFrom
 		}
@@ -548,16 +568,17 @@ func (x *ccCtx) signCase(oversize bool, sizeDelta int) {
 		key = signer.signer
 		issuer = signer.fp
 	case 2:
-		key = ccNewSigner(c, curve)
-		switch c.Intn(6) {
+		signer = x.cas[[2]int{1 + c.Intn(2), int(curve)}]
+		key = signer.signer
+		switch c.Intn(5) {
 		case 0:
 			issuer = nil
-		case 1:
+		case 1, 2:
 			issuer = c.RandBytes(1 + c.Intn(70))
-		case 2:
+		case 3:
 			issuer = c.RandBytes(126 + c.Intn(4))
 		default:
-			issuer = c.RandBytes(32)
+			issuer = c.RandBytes(33)
 		}
 	}
 
@@ -585,7 +606,7 @@ func (x *ccCtx) signCase(oversize bool, sizeDelta int) {
 		case 1:
 			crt, err = t.SignWith(signer.crt, curve, key.lambda(c, &seen))
 		case 2:
-			crt, err = cert.VerifCodecIssue(t, hex.EncodeToString(issuer), key.lambda(c, &seen))
+			crt, err = t.SignWith(ccFakeSigner{signer.crt, hex.EncodeToString(issuer)}, curve, key.lambda(c, &seen))
 		}
 	}()
 	kind := fmt.Sprintf("sign-v%d", ver)
@@ -603,7 +624,7 @@ func (x *ccCtx) signCase(oversize bool, sizeDelta int) {
 		return
 	}
 	refusedBySignWithGuards := false
-	if err != nil && (ver != cert.Version1 && ver != cert.Version2 || how == 0 && !isCA || how == 1 && isCA) {
+	if err != nil && (ver != cert.Version1 && ver != cert.Version2 || how == 0 && !isCA || how != 0 && isCA) {
 		refusedBySignWithGuards = true // guards outside the codec model (C04): not a case for the model
 	}
 	if refusedBySignWithGuards {
@@ -614,7 +635,16 @@ func (x *ccCtx) signCase(oversize bool, sizeDelta int) {
 		desc["accepted"] = false
 		desc["error"] = err.Error()
 		if oversize {
-			x.cw.Add(hx.App("COversize", hx.Bool(false), hx.N(0), hx.Bool(false)), kind+"-refused", false, desc)
+			// the length the certificate would have had: the same TBS through a copy of SignWith's tail without its guards
+			var dummy []byte
+			wb, werr := cert.VerifCodecIssue(t, hex.EncodeToString(issuer), key.lambda(c, &dummy))
+			wl := 0
+			if werr == nil {
+				m, _ := wb.Marshal()
+				wl = len(m)
+			}
+			desc["would_be_len"] = wl
+			x.cw.Add(hx.App("COversize", hx.Bool(false), hx.N(uint64(wl)), hx.Bool(false)), kind+"-refused", wl > 0, desc)
 			return
 		}
 		x.cw.Add(hx.App("CSign", hx.N(uint64(ver)), tbsLit, hx.None()), kind+"-refused", false, desc)
@@ -1419,7 +1449,7 @@ func (x *ccCtx) decodeCase() {
 }
 
 func runCertCodec(c *hx.Ctx) {
-	x := &ccCtx{c: c, cas: map[[2]int]*ccCA{}, stats: map[string]int{}}
+	x := &ccCtx{c: c, cas: map[[2]int]*ccCA{}, stats: map[string]int{}, failures: []map[string]any{}}
 	for v := 1; v <= 2; v++ {
 		for cv := 0; cv <= 1; cv++ {
 			x.cas[[2]int{v, cv}] = ccNewCA(c, cert.Version(v), cert.Curve(cv))
@@ -1439,10 +1469,12 @@ func runCertCodec(c *hx.Ctx) {
 	for i := 0; i < nSign; i++ {
 		x.signCase(false, 0)
 	}
-	// certificates around MaxCertificateSize: safely below, around (either side), above
-	x.signCase(true, -600)
-	x.signCase(true, -260+c.Intn(200))
-	x.signCase(true, -40+c.Intn(80))
+	// certificates around MaxCertificateSize (everything but the group's bytes takes 181 bytes): below, the last that fits,
+	// the first that does not, above. SignWith must refuse what the decoder would refuse.
+	x.signCase(true, -600+c.Intn(400))
+	x.signCase(true, -181)
+	x.signCase(true, -180)
+	x.signCase(true, -170+c.Intn(300))
 	for x.cw.Total() < c.N {
 		x.decodeCase()
 	}
